@@ -356,6 +356,8 @@ def run(ctx):
             "files first": run_cli(FILESETS[fs] + opts + aa + ["-e", QUERIES[q][1]]),
             "--a for -a": run_cli(opts + [x for f, t in ARGSETS[a] for x in (("--a", arg_expr(f, t)) if f == "-a" else (f, t))] + ["-e", QUERIES[q][1]] + FILESETS[fs]),
             "long options": run_cli([{"q": "--quiet", "s": "--no-messages", "c": "--count", "H": "--with-filename", "h": "--no-filename"}[c] for c in o] + aa + ["--expr", QUERIES[q][1]] + FILESETS[fs]),
+            "long options (--silent for -q, unambiguous prefixes)": run_cli([{"q": "--silent", "s": "--no-mess", "c": "--cou", "H": "--with-f", "h": "--no-f"}[c] for c in o] + aa + ["--exp", QUERIES[q][1]] + FILESETS[fs]),
+            "long options with =": run_cli([{"q": "--sil", "s": "--no-messages", "c": "--count", "H": "--with-filename", "h": "--no-filename"}[c] for c in o] + aa + ["--expr=" + QUERIES[q][1]] + FILESETS[fs]),
         }
         for name, r in variants.items():
             evaluations += 1
@@ -374,7 +376,7 @@ def run(ctx):
     ctx.cov.update({
         "evaluations": evaluations,
         "distinct_nontrivial": len(invs),
-        "rule": "option subsets of {-q,-s,-c,-H,-h} (all 32) x %d queries (0/1/many results, multi-value stacks, compile errors, exceptions after 0 and 2 results, an exception for one combination only, library diagnostics) x %d file lists (none, valid, unreadable, non-ELF, repeated) x %d -a/--a lists (0-3 values each, a value-less one, one that does not compile, DIE-valued ones); %s of the %d invocations; each compared on stdout, driver lines of stderr and exit status with the extracted model fed by the library driver's per-combination results; a sample re-run in 8 equivalent spellings (incl. the query read from a pipe and from a FIFO)" % (len(QUERIES), len(FILESETS), len(ARGSETS), "%d (every query/files/arguments configuration under two random option sets)" % len(invs) if quick else "all", len(OPTSETS) * len(configs)),
+        "rule": "option subsets of {-q,-s,-c,-H,-h} (all 32) x %d queries (0/1/many results, multi-value stacks, compile errors, exceptions after 0 and 2 results, an exception for one combination only, library diagnostics) x %d file lists (none, valid, unreadable, non-ELF, repeated) x %d -a/--a lists (0-3 values each, a value-less one, one that does not compile, DIE-valued ones); %s of the %d invocations; each compared on stdout, driver lines of stderr and exit status with the extracted model fed by the library driver's per-combination results; a sample re-run in 10 equivalent spellings (incl. the query read from a pipe and from a FIFO)" % (len(QUERIES), len(FILESETS), len(ARGSETS), "%d (every query/files/arguments configuration under two random option sets)" % len(invs) if quick else "all", len(OPTSETS) * len(configs)),
         "samples": [argv_for(*invs[0]), argv_for(*invs[len(invs) // 2])],
         "status_histogram": hist,
         "traces_validated_against_impl": evaluations,
